@@ -17,13 +17,18 @@
 (*   PartialMemo  a tag remembering the partial it loaded last             *)
 (*   SharedNode   per-render state parked on a syntax-tree node shared by  *)
 (*                two concurrent renders of one Template                   *)
+(*   SharedLoader a caching loader used by two Environments hands the      *)
+(*                second what it parsed for the first (as found)           *)
+(* Environment 3 is configured differently from Environment 2 and uses the *)
+(* very loader object of Environment 2.                                    *)
 (***************************************************************************)
 EXTENDS Integers, Sequences, TLC, Json, IOUtils
 
 CONSTANTS MaxOps, MaxFault, Dev, Focus,
           Kinds,        \* which kinds of step are generated: subset of {"call", "tick", "edit", "pair"}
           MaxSched,     \* length of the schedule prefix of a concurrent pair
-          TSet, DSet    \* the templates / data sets of this run ({} = all)
+          TSet, DSet,   \* the templates / data sets of this run ({} = all)
+          ESet          \* the Environments of this run
 
 \* the templates of the pool: what each exercises, whether its output shows the clock,
 \* whether it reads partials from the loader
@@ -65,11 +70,11 @@ Pool == <<
   \* between two `when`s is overwritten by a concurrent render); `gv` is bound by the globals a caller hands to
   \* from_string / get_template - part of the data set d, so a later caller's globals must win over an earlier one's
   [name |-> "branches", clocked |-> FALSE, loads |-> FALSE,
-   src |-> "{% case x.n %}{% when 2 %}two {{ x.a }}{% when 5, 7 %}five {{ x.b }}{% else %}other {{ x.a }}{% endcase %}|{% if x.n == 2 %}{{ x.a }}{% elsif x.n == 5 %}{{ x.b }}{% else %}{{ x.l | first }}{% endif %}|{% unless x.n == 5 %}{{ x.a }}{% else %}{{ x.b }}{% endunless %}|{{ gv }}"] >>
+   src |-> "{% case x.n %}{% when 2 %}two {{ x.a }}{% when 5, 7 %}five {{ x.b }}{% else %}other {{ x.a }}{% endcase %}|{% if x.n == 2 %}{{ x.a }}{% elsif x.n == 5 %}{{ x.b }}{% else %}{{ x.l | first }}{% endif %}|{% unless x.n == 5 %}{{ x.a }}{% else %}{{ x.b }}{% endunless %}|{{ gv }}|{{ envname }}|{{ 'q' | upcase }}"] >>
 \* two versions of every partial: an Edit step switches the loader of Environment 1 to the other one
 Partials == << [name |-> "base", src |-> "[{% block b %}base {{ x.b }}{% endblock %}|{% block c %}c{% increment n %}{% endblock %}]",
                 src2 |-> "<<{% block b %}BASE2 {{ x.a }}{% endblock %}>>"],
-               [name |-> "inc", src |-> "<{% increment k %}{% assign v = x.a %}{{ v }}>", src2 |-> "(inc2 {{ x.b }})"],
+               [name |-> "inc", src |-> "<{% increment k %}{% assign v = x.a %}{{ v }}{{ envname }}>", src2 |-> "(inc2 {{ x.b }}{{ envname }})"],
                [name |-> "chain", src |-> "{% extends 'base' %}{% block b %}ch {{ x.a }}{% endblock %}", src2 |-> "{% extends 'base' %}{% block c %}CH2{% endblock %}"],
                [name |-> "usesmacro", src |-> "[{% call m 'p' %}{% macro m v %}({{ v }}){% endmacro %}]", src2 |-> "[{% call m 'q' %}]"] >>
 
@@ -82,15 +87,22 @@ RECURSIVE SeqsUpTo(_, _)
 SeqsUpTo(E, n) == IF n = 0 THEN {<<>>} ELSE SeqsUpTo(E, n - 1) \cup {Append(s, x) : s \in SeqsUpTo(E, n - 1), x \in E}
 Scheds == {s \in SeqsUpTo({1, 2}, MaxSched) : Len(s) = MaxSched}
 
-VARIABLES hist, clock, content, memo, pmemo, last, expect
-vars == <<hist, clock, content, memo, pmemo, last, expect>>
+VARIABLES hist, clock, content, memo, pmemo, last, expect,
+          owner        \* SharedLoader: which of Environments 2 / 3 the shared loader parsed a template for (0: none yet)
+vars == <<hist, clock, content, memo, pmemo, last, expect, owner>>
+Envs == 1..3
+EIds == ESet
+\* the loader an Environment reads: 3 shares 2's
+LoaderOf(e) == IF e = 3 THEN 2 ELSE e
 
 \* what a call returns, abstractly: which template, which data, the clock if it shows, the
 \* loader contents if it loads
-Value(t, d, c, v) == [t |-> t, d |-> d, c |-> IF Pool[t].clocked THEN c ELSE 0, v |-> IF Pool[t].loads THEN v ELSE 0]
+\* (e: the Environment whose configuration shows in what was loaded - the caller's, by design)
+Value(t, d, c, v, e) == [t |-> t, d |-> d, c |-> IF Pool[t].clocked THEN c ELSE 0, v |-> IF Pool[t].loads THEN v ELSE 0, e |-> e]
 
 Init == /\ hist = <<>> /\ clock = 0 /\ content = [e \in 1..2 |-> 1]
-        /\ memo = [t \in DOMAIN Pool |-> -1] /\ pmemo = [e \in 1..2 |-> [t \in DOMAIN Pool |-> 0]]
+        /\ memo = [t \in DOMAIN Pool |-> -1] /\ pmemo = [e \in Envs |-> [t \in DOMAIN Pool |-> 0]]
+        /\ owner = [t \in DOMAIN Pool |-> 0]
         /\ last = <<>> /\ expect = <<>>
 
 \* fk: "data" (the k-th access to the caller's data raises) | "loader" (the k-th loader call raises)
@@ -102,13 +114,17 @@ Call(kind, t, d, fk, fault, env) ==
   /\ hist' = Append(hist, [op |-> kind, t |-> t, d |-> d, fk |-> fk, fault |-> fault, env |-> env, t2 |-> 0, d2 |-> 0, sched |-> <<>>])
   /\ LET seenClock == IF "DateMemo" \in Dev /\ Pool[t].clocked /\ memo[t] >= 0 THEN memo[t] ELSE clock
          cached == kind \in {"render", "render_async"}          \* the long-lived Template object is used
-         seenContent == IF "PartialMemo" \in Dev /\ cached /\ pmemo[env][t] > 0 THEN pmemo[env][t] ELSE content[env]
+         seenContent == IF "PartialMemo" \in Dev /\ cached /\ pmemo[env][t] > 0 THEN pmemo[env][t] ELSE content[LoaderOf(env)]
+         \* through the loader: get_template itself, and whatever loads partials
+         loaded == env \in {2, 3} /\ (kind = "get_template" \/ Pool[t].loads)
+         seenEnv == IF "SharedLoader" \in Dev /\ loaded /\ owner[t] # 0 THEN owner[t] ELSE env
      IN
-     /\ last' = IF fault > 0 THEN <<[kind |-> "fault"]>> ELSE <<[kind |-> "ok", v |-> Value(t, d, seenClock, seenContent)]>>
+     /\ last' = IF fault > 0 THEN <<[kind |-> "fault"]>> ELSE <<[kind |-> "ok", v |-> Value(t, d, seenClock, seenContent, seenEnv)]>>
+     /\ owner' = IF loaded /\ owner[t] = 0 /\ fault = 0 THEN [owner EXCEPT ![t] = env] ELSE owner
      /\ memo' = IF "DateMemo" \in Dev /\ Pool[t].clocked /\ memo[t] < 0 /\ fault = 0 THEN [memo EXCEPT ![t] = clock] ELSE memo
      /\ pmemo' = IF "PartialMemo" \in Dev /\ cached /\ Pool[t].loads /\ pmemo[env][t] = 0 /\ fault = 0
-                 THEN [pmemo EXCEPT ![env][t] = content[env]] ELSE pmemo
-  /\ expect' = IF fault > 0 THEN <<[kind |-> "fault"]>> ELSE <<[kind |-> "ok", v |-> Value(t, d, clock, content[env])]>>
+                 THEN [pmemo EXCEPT ![env][t] = content[LoaderOf(env)]] ELSE pmemo
+  /\ expect' = IF fault > 0 THEN <<[kind |-> "fault"]>> ELSE <<[kind |-> "ok", v |-> Value(t, d, clock, content[LoaderOf(env)], env)]>>
   /\ UNCHANGED <<clock, content>>
 
 Tick ==
@@ -117,7 +133,7 @@ Tick ==
   /\ hist' = Append(hist, [op |-> "tick", t |-> 0, d |-> 0, fk |-> "data", fault |-> 0, env |-> 1, t2 |-> 0, d2 |-> 0, sched |-> <<>>])
   /\ clock' = clock + 1
   /\ last' = <<>> /\ expect' = <<>>
-  /\ UNCHANGED <<memo, pmemo, content>>
+  /\ UNCHANGED <<memo, pmemo, content, owner>>
 
 \* the partials in the loader of Environment 1 are replaced by their other version
 Edit ==
@@ -126,7 +142,7 @@ Edit ==
   /\ hist' = Append(hist, [op |-> "edit", t |-> 0, d |-> 0, fk |-> "data", fault |-> 0, env |-> 1, t2 |-> 0, d2 |-> 0, sched |-> <<>>])
   /\ content' = [content EXCEPT ![1] = 3 - @]
   /\ last' = <<>> /\ expect' = <<>>
-  /\ UNCHANGED <<clock, memo, pmemo>>
+  /\ UNCHANGED <<clock, memo, pmemo, owner>>
 
 \* two render_async calls on long-lived Template objects of one Environment, interleaved at
 \* their await points as `sched` says (then round-robin); same template = same Template object
@@ -136,15 +152,15 @@ Pair(t1, d1, t2, d2, s, env) ==
   /\ Len(hist) < MaxOps
   /\ hist' = Append(hist, [op |-> "pair", t |-> t1, d |-> d1, fk |-> "data", fault |-> 0, env |-> env, t2 |-> t2, d2 |-> d2, sched |-> s])
   /\ LET mixed == "SharedNode" \in Dev /\ t1 = t2 /\ d1 # d2 /\ Interleaved(s) IN
-     last' = << [kind |-> "ok", v |-> Value(t1, IF mixed THEN d2 ELSE d1, clock, content[env])],
-                [kind |-> "ok", v |-> Value(t2, d2, clock, content[env])] >>
-  /\ expect' = << [kind |-> "ok", v |-> Value(t1, d1, clock, content[env])], [kind |-> "ok", v |-> Value(t2, d2, clock, content[env])] >>
-  /\ UNCHANGED <<clock, content, memo, pmemo>>
+     last' = << [kind |-> "ok", v |-> Value(t1, IF mixed THEN d2 ELSE d1, clock, content[LoaderOf(env)], env)],
+                [kind |-> "ok", v |-> Value(t2, d2, clock, content[LoaderOf(env)], env)] >>
+  /\ expect' = << [kind |-> "ok", v |-> Value(t1, d1, clock, content[LoaderOf(env)], env)], [kind |-> "ok", v |-> Value(t2, d2, clock, content[LoaderOf(env)], env)] >>
+  /\ UNCHANGED <<clock, content, memo, pmemo, owner>>
 
-Next == \/ \E k \in Calls, t \in TIds, d \in DIds, f \in 0..MaxFault, e \in 1..2 : Call(k, t, d, "data", f, e)
-        \/ \E k \in Calls, t \in TIds, d \in DIds, f \in 1..MaxFault, e \in 1..2 : Call(k, t, d, "loader", f, e)
+Next == \/ \E k \in Calls, t \in TIds, d \in DIds, f \in 0..MaxFault, e \in EIds : Call(k, t, d, "data", f, e)
+        \/ \E k \in Calls, t \in TIds, d \in DIds, f \in 1..MaxFault, e \in {1} \cap EIds : Call(k, t, d, "loader", f, e)
         \/ Tick \/ Edit
-        \/ \E t1 \in PairIds \cap TIds, t2 \in PairIds \cap TIds, d1 \in 1..2, d2 \in 1..2, s \in Scheds, e \in 1..2 : t1 <= t2 /\ Pair(t1, d1, t2, d2, s, e)
+        \/ \E t1 \in PairIds \cap TIds, t2 \in PairIds \cap TIds, d1 \in 1..2, d2 \in 1..2, s \in Scheds, e \in EIds : t1 <= t2 /\ Pair(t1, d1, t2, d2, s, e)
 
 \* the result of every step is the result of the same call on fresh objects
 HistoryIndependent == last = expect
